@@ -46,6 +46,13 @@ type Client struct {
 	// by returning nil,true) for a Get of a kind with KeepHistory.
 	StaleGet func(k Key, versions []*unstructured.Unstructured) (*unstructured.Unstructured, bool)
 
+	p *proc
+}
+
+// proc is the process a client belongs to: the per-reconcile call counter and
+// the crashed flag are shared by all clients of one process (e.g. the cached
+// and the uncached client of one controller).
+type proc struct {
 	idx  int
 	dead bool
 }
@@ -56,16 +63,22 @@ var (
 )
 
 // NewClient returns a client for the actor.
-func NewClient(s *Server, actor string) *Client { return &Client{S: s, Actor: actor} }
+func NewClient(s *Server, actor string) *Client { return &Client{S: s, Actor: actor, p: &proc{}} }
 
-// BeginReconcile resets the per-reconcile call counter and revives the actor.
-func (c *Client) BeginReconcile() { c.idx = 0; c.dead = false }
+// Sibling returns another client of the same process (shared call counter and
+// crash state), e.g. the uncached client next to the cached one.
+func (c *Client) Sibling(actor string) *Client {
+	return &Client{S: c.S, Actor: actor, Intercept: c.Intercept, p: c.p}
+}
+
+// BeginReconcile resets the per-reconcile call counter and revives the process.
+func (c *Client) BeginReconcile() { c.p.idx = 0; c.p.dead = false }
 
 // Calls returns the number of calls issued since BeginReconcile.
-func (c *Client) Calls() int { return c.idx }
+func (c *Client) Calls() int { return c.p.idx }
 
-// Dead reports whether the actor crashed in this reconcile.
-func (c *Client) Dead() bool { return c.dead }
+// Dead reports whether the process crashed in this reconcile.
+func (c *Client) Dead() bool { return c.p.dead }
 
 type result struct {
 	err      error
@@ -77,10 +90,10 @@ type result struct {
 	removed  bool
 }
 
-func (c *Client) run(verb, sub string, k Key, dry, write bool, mgr string, effect func() result) error {
+func (c *Client) run(verb, sub string, k Key, dry, write bool, mgr string, effect func() result, body ...*unstructured.Unstructured) error {
 	s := c.S
-	c.idx++
-	ev := &Event{Actor: c.Actor, Idx: c.idx, Verb: verb, Sub: sub, Group: k.Group, Kind: k.Kind, NS: k.Namespace, Name: k.Name, DryRun: dry, Manager: mgr}
+	c.p.idx++
+	ev := &Event{Actor: c.Actor, Idx: c.p.idx, Verb: verb, Sub: sub, Group: k.Group, Kind: k.Kind, NS: k.Namespace, Name: k.Name, DryRun: dry, Manager: mgr}
 	finish := func(err error) error {
 		s.mu.Lock()
 		s.seq++
@@ -93,13 +106,17 @@ func (c *Client) run(verb, sub string, k Key, dry, write bool, mgr string, effec
 		}
 		return err
 	}
-	if c.dead {
+	if c.p.dead {
 		ev.Outcome = "dropped"
 		return finish(ErrCrashed)
 	}
 	dec := Proceed
 	if c.Intercept != nil {
-		dec = c.Intercept(&Call{Actor: c.Actor, Idx: c.idx, Verb: verb, Sub: sub, Key: k, DryRun: dry, Write: write})
+		cl := &Call{Actor: c.Actor, Idx: c.p.idx, Verb: verb, Sub: sub, Key: k, DryRun: dry, Write: write}
+		if len(body) > 0 {
+			cl.Obj = body[0]
+		}
+		dec = c.Intercept(cl)
 	}
 	switch dec {
 	case FailError:
@@ -114,7 +131,7 @@ func (c *Client) run(verb, sub string, k Key, dry, write bool, mgr string, effec
 		ev.Outcome = "error"
 		return finish(kerrors.NewInternalError(ErrInjected))
 	case CrashBefore:
-		c.dead = true
+		c.p.dead = true
 		ev.Outcome, ev.Injected = "dropped", dec.String()
 		return finish(ErrCrashed)
 	}
@@ -131,7 +148,7 @@ func (c *Client) run(verb, sub string, k Key, dry, write bool, mgr string, effec
 		ev.PreObj, ev.PostObj = r.pre, r.post
 	}
 	if dec == CrashAfter {
-		c.dead = true
+		c.p.dead = true
 		ev.Injected = dec.String()
 		return finish(ErrCrashed)
 	}
@@ -506,7 +523,7 @@ func (c *Client) Create(_ context.Context, obj client.Object, opts ...client.Cre
 			r.err = s.into(r.post, gvk, obj)
 		}
 		return r
-	})
+	}, u)
 }
 
 // update is shared by Update, Status().Update and the non-apply patches: n is
@@ -564,7 +581,7 @@ func (c *Client) doUpdate(sub string, obj client.Object, mgr string, dry bool) e
 	}
 	return c.run("update", sub, k, dry, true, mgr, func() result {
 		return c.update("update", sub, k, gvk, u, mgr, dry, obj)
-	})
+	}, u)
 }
 
 // Patch implements client.Writer.
